@@ -21,7 +21,9 @@ EXPLANATION = (
     "decides the alias clause exactly (a dropped or rebound argument is dropped for every value). For restriction: "
     "liveness of columns/keys/dtypes/types in every reader, by-name application of dtype maps, and an order-provenance "
     "dataflow at every positional labelling site zip(names, values) in a reader (names in REQUEST order must not label "
-    "values in FILE order). Not decided: that casting after reading equals casting while reading; PyArrow's own "
+    "values in FILE order); (RESTR-pol) membership tests on the restriction parameter keep the elements IN it; (TYPE-flow) each (name, type) "
+    "pair of a type map reaches a conversion; (CAST-conv) parsed Python lists are cast through the converting constructor, never "
+    ".fast(). Not decided: that casting after reading equals casting while reading; PyArrow's own "
     "column selection."
 )
 ASSUMPTIONS = [
